@@ -1,6 +1,7 @@
 /-
   Props/ExecAll.lean — the whole `Execute` (Conc/Exec: c.run, Execute's decision, c.fallback) for any number of concurrent
-  callers racing OpenCircuit / CloseCircuit and operators that store override flags and the run limit, EVERY schedule:
+  callers racing OpenCircuit / CloseCircuit and operators that store, at arbitrary moments, EVERY setting the model reads
+  (override flags, kill switch, run limit, Fallback.Disabled, fallback limit), EVERY schedule:
   what the caller gets is what the return-value contract says (C06), the fallback tells its collectors exactly one thing
   per attempted fallback and is invoked exactly once iff it decided the answer (C05), a bad request and a nil never reach
   it (C06), both gauges are never negative and read zero once everybody has returned — by return, refusal or PANIC of
@@ -16,16 +17,28 @@ open CM.Lemmas.ExecL
 
 /-- the return-value contract, as a relation between what `c.run` returned (`r`, with the script saying whether that
     was an error and whether a bad request), the fallback's script, the settings, and what Execute's caller gets -/
-def contract (sc : Run.Script) (fb : FbScript) (fbDisabled : Bool) (fbLimit : Int) (r : Run.Res) (o : Out) : Prop :=
+def contract (sc : Run.Script) (fb : FbScript) (mayBeDisabled : Bool) (mayBeLimited : Bool) (r : Run.Res) (o : Out) : Prop :=
   match r with
   | .manual => o = .manual
   | .panicked => o = .runPanic
   | _ =>
     if !runFailed sc r then o = .ok
     else if runBad sc r then o = .runErr
-    else if !fb.present || fbDisabled then o = .runErr
-    else (o = .limit ∧ 0 ≤ fbLimit) ∨ (o = .fbPanic ∧ fb.panics = true) ∨
+    else if !fb.present then o = .runErr
+    else (o = .runErr ∧ mayBeDisabled = true) ∨ (o = .limit ∧ mayBeLimited = true) ∨ (o = .fbPanic ∧ fb.panics = true) ∨
          (o = .fbOk ∧ fb.panics = false ∧ fb.fails = false) ∨ (o = .fbErr ∧ fb.panics = false ∧ fb.fails = true)
+
+/-- values a setting can ever have: the initial one or one an operator of the job list installs -/
+def everDisabled (dis : Bool) (jobs : List Exec.Job) : Bool :=
+  dis || jobs.any fun j => match j with | .reconfigure cfg => cfg.dis | _ => false
+def alwaysDisabled (dis : Bool) (jobs : List Exec.Job) : Bool :=
+  dis && jobs.all fun j => match j with | .reconfigure cfg => cfg.dis | _ => true
+def everFbDisabled (fd : Bool) (jobs : List Exec.Job) : Bool :=
+  fd || jobs.any fun j => match j with | .reconfigure cfg => cfg.fbDis | _ => false
+def someFbLimitNonneg (fm : Int) (jobs : List Exec.Job) : Bool :=
+  decide (0 ≤ fm) || jobs.any fun j => match j with | .reconfigure cfg => decide (0 ≤ cfg.fbLimit) | _ => false
+def largestFbLimit (fm : Int) (jobs : List Exec.Job) : Int :=
+  jobs.foldl (fun acc j => match j with | .reconfigure cfg => max acc cfg.fbLimit | _ => acc) fm
 
 /-- what the fallback collectors must have been told, given the outcome -/
 def expectedFbEvents : Out → List FbEv
@@ -37,11 +50,10 @@ def expectedFbEvents : Out → List FbEv
 theorem return_value_contract (fo fc io : Bool) (m fm : Int) (fd : Bool) (dis : Bool) (jobs : List Exec.Job) (sched : List Nat) (i : Nat)
     (sc : Run.Script) (fb : FbScript) (o : Out) :
     let c := run Exec.sys (Exec.init fo fc io m fm fd jobs dis) sched
-    dis = false → jobs[i]? = some (.exec sc fb) → Exec.outOf c i = some o →
-    ∃ r, Exec.runResOf c i = some r ∧ contract sc fb fd fm r o ∧ Exec.directCount c i = 0 := by
+    everDisabled dis jobs = false → jobs[i]? = some (.exec sc fb) → Exec.outOf c i = some o →
+    ∃ r, Exec.runResOf c i = some r ∧ contract sc fb (everFbDisabled fd jobs) (someFbLimitNonneg fm jobs) r o ∧ Exec.directCount c i = 0 := by
   intro c hd hj ho
-  subst hd
-  obtain ⟨r, hr, hc, hdc⟩ := ex_return_value jobs fd fm c (ex_FInv_run fo fc io m fm fd jobs false sched) i sc fb o hj ho
+  obtain ⟨r, hr, hc, hdc⟩ := ex_return_value jobs dis fd fm c (ex_Inv_run fo fc io m fm fd jobs dis sched) hd i sc fb o hj ho
   refine ⟨r, hr, ?_, hdc⟩
   cases r <;> exact hc
 
@@ -51,7 +63,7 @@ theorem exactly_the_right_fallback_events (fo fc io : Bool) (m fm : Int) (fd : B
     Exec.fbEventsOf c i = expectedFbEvents o ∧
     Exec.fbInvokedCount c i = (match o with | .fbOk | .fbErr | .fbPanic => 1 | _ => 0) := by
   intro c ho
-  have he := ex_done_events jobs fd fm dis c (ex_FInv_run fo fc io m fm fd jobs dis sched) i o ho
+  have he := ex_done_events jobs dis fd fm c (ex_FInv_run fo fc io m fm fd jobs dis sched) i o ho
   rw [ex_fbEventsOf, ex_fbInvokedCount, he]
   cases o <;> exact ⟨rfl, rfl⟩
 
@@ -60,18 +72,18 @@ theorem at_most_one_fallback_event_ever (fo fc io : Bool) (m fm : Int) (fd : Boo
     (Exec.fbEventsOf c i).length ≤ 1 ∧ Exec.fbInvokedCount c i ≤ 1 := by
   intro c
   rw [ex_fbEventsOf, ex_fbInvokedCount]
-  rcases ex_shapes jobs fd fm dis c (ex_FInv_run fo fc io m fm fd jobs dis sched) i with e | e | e | e | e <;> rw [e] <;>
+  rcases ex_shapes jobs dis fd fm c (ex_FInv_run fo fc io m fm fd jobs dis sched) i with e | e | e | e | e <;> rw [e] <;>
     exact ⟨by decide, by decide⟩
 
-/-- a bad request, a nil and a panic of the run function never reach the fallback; nor does anything when fallbacks are disabled -/
+/-- a bad request, a nil and a panic of the run function never reach the fallback, whatever is being reconfigured -/
 theorem fallback_not_consulted (fo fc io : Bool) (m fm : Int) (fd : Bool) (dis : Bool) (jobs : List Exec.Job) (sched : List Nat) (i : Nat)
     (sc : Run.Script) (fb : FbScript) (r : Run.Res) :
     let c := run Exec.sys (Exec.init fo fc io m fm fd jobs dis) sched
     jobs[i]? = some (.exec sc fb) → Exec.runResOf c i = some r →
-    (runFailed sc r = false ∨ runBad sc r = true ∨ r = .panicked ∨ fd = true ∨ fb.present = false) →
+    (runFailed sc r = false ∨ runBad sc r = true ∨ r = .panicked ∨ fb.present = false) →
     Exec.fbInvokedCount c i = 0 ∧ Exec.fbEventsOf c i = [] := by
   intro c hj hr h
-  have he := ex_not_consulted jobs fd fm dis c (ex_FInv_run fo fc io m fm fd jobs dis sched) i sc fb r hj hr h
+  have he := ex_not_consulted jobs dis fd fm c (ex_FInv_run fo fc io m fm fd jobs dis sched) i sc fb r hj hr h
   rw [ex_fbEventsOf, ex_fbInvokedCount, he]
   exact ⟨rfl, rfl⟩
 
@@ -107,34 +119,38 @@ theorem quiescent_gauges_zero (fo fc io : Bool) (m fm : Int) (fd : Bool) (dis : 
   constructor
   · have hg : c.shared.r.gauge = _ := ex_GInv_run fo fc io m fm fd jobs dis sched
     rw [hg]
-    exact ex_allDone_cnt jobs fd fm dis c (ex_FInv_run fo fc io m fm fd jobs dis sched) hq
+    exact ex_allDone_cnt jobs dis fd fm c (ex_FInv_run fo fc io m fm fd jobs dis sched) hq
   · obtain ⟨reg, G⟩ := ex_BInv_run fo fc io m fm fd jobs dis sched
     have h1 : c.shared.fbGauge = (reg.length : Int) := G.gauge
-    have h2 : reg.length = _ := G.len
-    have h3 := ex_allDone_inRegion _ hq
+    have h2 : reg.length = (c.locals.map ex_glL).countP inRegion := G.len
+    have h3 : (c.locals.map ex_glL).countP inRegion = 0 := ex_allDone_inRegion c hq
     omega
 
-theorem fallbacks_in_flight_le_limit (fo fc io : Bool) (m fm : Int) (fd : Bool) (dis : Bool) (hfm : 0 ≤ fm) (jobs : List Exec.Job) (sched : List Nat) :
-    (Exec.fbInFlight (run Exec.sys (Exec.init fo fc io m fm fd jobs dis) sched) : Int) ≤ fm := by
-  obtain ⟨reg, G⟩ := ex_BInv_run fo fc io m fm fd jobs dis sched
+/-- … the LARGEST fallback limit ever in force, when none of them is negative (= unlimited): each admission is decided against
+    one of them, never a mixture -/
+theorem fallbacks_in_flight_le_limit (fo fc io : Bool) (m fm : Int) (fd : Bool) (dis : Bool) (hfm : 0 ≤ fm) (jobs : List Exec.Job) (sched : List Nat)
+    (hj : ∀ j ∈ jobs, match j with | .reconfigure cfg => 0 ≤ cfg.fbLimit | _ => True) :
+    (Exec.fbInFlight (run Exec.sys (Exec.init fo fc io m fm fd jobs dis) sched) : Int) ≤ largestFbLimit fm jobs := by
+  obtain ⟨reg, G⟩ := (ex_LInv_run fo fc io m fm fd jobs dis sched hfm hj).b
   rw [ex_fbInFlight_eq]
-  exact G.inFlight_le hfm
+  exact G.inFlight_le (Int.le_trans hfm (ex_largest_ge fm jobs))
 
-theorem negative_fallback_limit_refuses_nobody (fo fc io : Bool) (m fm : Int) (fd : Bool) (dis : Bool) (hfm : fm < 0) (jobs : List Exec.Job) (sched : List Nat) (i : Nat) :
+theorem negative_fallback_limit_refuses_nobody (fo fc io : Bool) (m fm : Int) (fd : Bool) (dis : Bool) (jobs : List Exec.Job) (hfm : someFbLimitNonneg fm jobs = false) (sched : List Nat) (i : Nat) :
     Exec.outOf (run Exec.sys (Exec.init fo fc io m fm fd jobs dis) sched) i ≠ some .limit := by
-  exact ex_never_limit jobs fd fm dis _ (ex_FInv_run fo fc io m fm fd jobs dis sched) hfm i
+  exact ex_never_limit jobs dis fd fm _ (ex_FInv_run fo fc io m fm fd jobs dis sched) hfm i
 
 theorem never_deadlocks (fo fc io : Bool) (m fm : Int) (fd : Bool) (dis : Bool) (jobs : List Exec.Job) (sched : List Nat) :
     let c := run Exec.sys (Exec.init fo fc io m fm fd jobs dis) sched
     Exec.allDone c = false → ∃ i l, c.locals[i]? = some l ∧ (Exec.step i c.shared l).isSome := by
   intro c hnd
-  exact ex_progress jobs fd fm dis io c (ex_FInv_run fo fc io m fm fd jobs dis sched)
+  exact ex_progress jobs dis fd fm io c (ex_FInv_run fo fc io m fm fd jobs dis sched)
     (ex_TInv_run fo fc io m fm fd jobs dis sched) hnd
 
-/-- the kill switch: with `Disabled` on, Execute is the run function called directly — its answer, its error or its panic
+/-- the kill switch: with `Disabled` on — and every reconfiguration keeping it on —, Execute is the run function called directly — its answer, its error or its panic
     straight to the caller, exactly one direct call, no admission, no run event, no fallback, no fallback event, and both
     gauges stay at zero whatever everybody is doing (OpenCircuit / CloseCircuit and operators included) -/
-theorem disabled_is_pass_through (fo fc io : Bool) (m fm : Int) (fd : Bool) (jobs : List Exec.Job) (sched : List Nat) :
+theorem disabled_is_pass_through (fo fc io : Bool) (m fm : Int) (fd : Bool) (jobs : List Exec.Job) (sched : List Nat)
+    (hd : alwaysDisabled true jobs = true) :
     let c := run Exec.sys (Exec.init fo fc io m fm fd jobs true) sched
     c.shared.r.gauge = 0 ∧ c.shared.fbGauge = 0 ∧
     ∀ i sc fb, jobs[i]? = some (.exec sc fb) →
@@ -144,7 +160,7 @@ theorem disabled_is_pass_through (fo fc io : Bool) (m fm : Int) (fd : Bool) (job
         o = (if sc.panics then .runPanic else if sc.failed then .runErr else .ok) ∧ Exec.directCount c i = 1 := by
   intro c
   have I := ex_Inv_run fo fc io m fm fd jobs true sched
-  obtain ⟨g1, g2⟩ := ex_kill_gauges jobs fd fm c I
+  obtain ⟨g1, g2⟩ := ex_kill_gauges jobs true fd fm c I hd
   refine ⟨?_, ?_, ?_⟩
   · have hg : c.shared.r.gauge = _ := ex_GInv_run fo fc io m fm fd jobs true sched
     rw [hg]
@@ -154,8 +170,8 @@ theorem disabled_is_pass_through (fo fc io : Bool) (m fm : Int) (fd : Bool) (job
     have h2 : reg.length = (c.locals.map ex_glL).countP inRegion := G.len
     omega
   · intro i sc fb hj
-    obtain ⟨he, hdc, _, ho⟩ := ex_kill_exec jobs fd fm c I.F i sc fb hj
-    have hr := ex_kill_run_events jobs fd fm c I i sc fb hj
+    obtain ⟨he, hdc, _, ho⟩ := ex_kill_exec jobs true fd fm c I.F hd i sc fb hj
+    have hr := ex_kill_run_events jobs true fd fm c I hd i sc fb hj
     have h1 : Exec.runEventsOf c i = (CM.Lemmas.RunEvents.re_evs i c.shared.r.events).filter
         (fun e => e != .invoked && e != .vetoed) := CM.Lemmas.RunDynL.rd_eventsOf (ex_proj c) i
     have h2 : Exec.runInvokedCount c i = ((CM.Lemmas.RunEvents.re_evs i c.shared.r.events).filter
@@ -164,6 +180,29 @@ theorem disabled_is_pass_through (fo fc io : Bool) (m fm : Int) (fd : Bool) (job
       by rw [ex_fbInvokedCount, he]; rfl, hdc, ?_⟩
     intro o hoo
     exact ho o hoo
+
+/-- a LIVE kill switch is read once per call: every finished Execute went EITHER straight to its run function (one direct
+    call, no run event, no fallback event, nothing invoked through the circuit) OR through the circuit (no direct call) —
+    never a mixture, whatever the operators were storing meanwhile -/
+theorem kill_switch_old_or_new (fo fc io : Bool) (m fm : Int) (fd : Bool) (dis : Bool) (jobs : List Exec.Job) (sched : List Nat) (i : Nat)
+    (sc : Run.Script) (fb : FbScript) (o : Out) :
+    let c := run Exec.sys (Exec.init fo fc io m fm fd jobs dis) sched
+    jobs[i]? = some (.exec sc fb) → Exec.outOf c i = some o →
+    (Exec.directCount c i = 1 ∧ Exec.runEventsOf c i = [] ∧ Exec.runInvokedCount c i = 0 ∧ Exec.fbEventsOf c i = [] ∧
+       Exec.fbInvokedCount c i = 0 ∧ o = (if sc.panics then .runPanic else if sc.failed then .runErr else .ok) ∧ everDisabled dis jobs = true) ∨
+    (Exec.directCount c i = 0 ∧ ∃ r, Exec.runResOf c i = some r ∧
+       contract sc fb (everFbDisabled fd jobs) (someFbLimitNonneg fm jobs) r o) := by
+  intro c hj ho
+  have I := ex_Inv_run fo fc io m fm fd jobs dis sched
+  rcases ex_old_or_new jobs dis fd fm c I i sc fb o hj ho with ⟨hdc, hr, he, hoo, hed⟩ | ⟨hdc, r, hr, hc⟩
+  · have h1 : Exec.runEventsOf c i = (CM.Lemmas.RunEvents.re_evs i c.shared.r.events).filter
+        (fun e => e != .invoked && e != .vetoed) := CM.Lemmas.RunDynL.rd_eventsOf (ex_proj c) i
+    have h2 : Exec.runInvokedCount c i = ((CM.Lemmas.RunEvents.re_evs i c.shared.r.events).filter
+        (fun e => e == .invoked)).length := CM.Lemmas.RunDynL.rd_invokedCount (ex_proj c) i
+    exact Or.inl ⟨hdc, by rw [h1, hr]; rfl, by rw [h2, hr]; rfl, by rw [ex_fbEventsOf, he]; rfl,
+      by rw [ex_fbInvokedCount, he]; rfl, hoo, hed⟩
+  · refine Or.inr ⟨hdc, r, hr, ?_⟩
+    cases r <;> exact hc
 
 /-! non-vacuity: fallback limit 1; a failing call whose fallback is inside its function when a second failing call arrives
     (refused: limit), a bad request (never reaches its fallback) and a call whose fallback panics -/
@@ -174,6 +213,10 @@ def c1 := run Exec.sys (Exec.init false false false 10 1 false jobs1) sched1
 example : Exec.allDone c1 = true := by decide +kernel
 example : Exec.outOf c1 0 = some .fbOk ∧ Exec.outOf c1 1 = some .limit ∧ Exec.outOf c1 2 = some .runErr ∧ Exec.outOf c1 3 = some .fbPanic := by decide +kernel
 example : c1.shared.fbGauge = 0 ∧ c1.shared.r.gauge = 0 := by decide +kernel
+/-- … a reconfiguration that switches fallbacks off and the kill switch on while callers are under way -/
+def jobs3 : List Exec.Job := [.exec { failed := true } {}, .reconfigure { dis := true, fbDis := true }, .exec { failed := true } {}, .exec { failed := true } {}]
+def c3 := run Exec.sys (Exec.init false false false 10 10 false jobs3) (List.replicate 21 0 ++ List.replicate 5 1 ++ List.replicate 40 0 ++ List.replicate 1 1 ++ List.replicate 40 2 ++ [1] ++ List.replicate 40 3)
+example : Exec.allDone c3 = true ∧ (List.range 4).map (Exec.outOf c3) = [some .runErr, none, some .runErr, some .runErr] ∧ c3.shared.direct = [2, 3] := by decide +kernel
 /-- … and the same callers under the kill switch -/
 def c2 := run Exec.sys (Exec.init false false false 10 1 false jobs1 true) (List.replicate 3 0 ++ List.replicate 3 1 ++ List.replicate 3 2 ++ List.replicate 3 3)
 example : Exec.allDone c2 = true ∧ (List.range 4).map (Exec.outOf c2) = [some .runErr, some .runErr, some .runErr, some .runErr] ∧ c2.shared.direct = [0, 1, 2, 3] := by decide +kernel
